@@ -179,6 +179,33 @@ def _own_calls(q):
                 stack.append(c)
 
 
+def _range_limit_writers(chk: Check) -> None:
+    """The branch tests of p / dp / ddp / csq compare the temperature with the cached limits TMin / TMax of each phase, and the template coefficients are
+    matched at exactly these limits by setExtrapolate.  Only the constructor and setExtrapolate may store them: any other writer moves the branch points away
+    from where the coefficients were matched (p, dp, ddp and csq then jump there)."""
+    S = chk.src
+    ci = S.cls("thermodynamics:Thermodynamics")
+    limits = {f"T{a}{b}T" for a in ("Min", "Max") for b in ("High", "Low")}
+    writers = {}
+    for mname, mf in ci.methods.items():
+        for x in ast.walk(mf.node):
+            if isinstance(x, ast.Attribute) and isinstance(x.ctx, ast.Store) and x.attr in limits and isinstance(x.value, ast.Name) and x.value.id == "self":
+                writers.setdefault(mname, set()).add(x.attr)
+    # ... and nobody outside the class
+    outside = []
+    for m in S.modules.values():
+        for q, f in m.funcs.items():
+            if q.startswith("Thermodynamics.") or not isinstance(f.node, (ast.FunctionDef, ast.AsyncFunctionDef)):
+                continue
+            for x in ast.walk(f.node):
+                if isinstance(x, ast.Attribute) and isinstance(x.ctx, ast.Store) and x.attr in limits and not (isinstance(x.value, ast.Name) and x.value.id == "self"):
+                    outside.append(f"{q}: {x.attr}")
+    allowed = {"__init__", "setExtrapolate"}
+    bad = {k: sorted(v) for k, v in writers.items() if k not in allowed}
+    chk.ob("R10.8", "src/WallGo/thermodynamics.py", "the cached range limits TMin/TMax{High,Low}T are stored only by Thermodynamics.__init__ and setExtrapolate (where the "
+           "coefficients are matched)", not bad and not outside and set(writers) >= {"setExtrapolate"}, f"other writers: {bad} {outside[:4]}", key="limit-writers")
+
+
 def rules(chk: Check) -> None:
     S = chk.src
     chk.src.cls(TH)
@@ -559,3 +586,4 @@ def rules(chk: Check) -> None:
     # mutated in place (two phases sharing one [T, flag] list would clip each other's range and move the extrapolation points)
     from .shared import per_object_state
     chk.stage(per_object_state, chk, "R10.8", ("Thermodynamics", "FreeEnergy", "InterpolatableFunction"))
+    chk.stage(_range_limit_writers, chk)
